@@ -290,10 +290,14 @@ def eval_int_test(node, var, val):
     return None
 
 
-def r2_pairing(ctx, rule, quals=None, entries=(ENTRY,), floor=12, skip_markov=False):
+def r2_pairing(ctx, rule, quals=None, entries=(ENTRY,), floor=12, skip_markov=False, extend=True):
     emitters, closure = emitter_quals(ctx, entries)
-    quals = quals or [PG + '_recursive_guesses', PG + '_honeyword_recursive_guess', PG + 'omen_generate_guesses',
-                      CS + 'run', HS + 'run']
+    quals = list(quals or [PG + '_recursive_guesses', PG + '_honeyword_recursive_guess', PG + 'omen_generate_guesses',
+                           CS + 'run', HS + 'run'])
+    # plus every other emitter of the closure that has a budget parameter (wrappers normally contain no emission event)
+    for q_ in (sorted(emitters) if extend else ()):
+        if q_ not in quals and budget_var(emitters[q_]) is not None and q_.startswith('lib_guesser/pcfg_grammar.py'):
+            quals.append(q_)
     n = 0
     for qual in quals:
         fn = ctx.fn(qual)
